@@ -179,6 +179,10 @@ def _oserr(e):
     return OSError(e, os.strerror(e))
 
 
+_FATAL_ERRNOS = (errno.ECONNRESET, errno.EPIPE, errno.ETIMEDOUT, errno.ECONNABORTED, errno.EHOSTUNREACH,
+                 errno.ENETDOWN, errno.ENOTCONN)
+
+
 class ShimSocket:
     """Node-side socket.  Wraps one end of a socketpair; records boundary events."""
     _n = 0
@@ -200,6 +204,7 @@ class ShimSocket:
         self.recv_plan: deque = deque()
         self.accept_q: deque = deque()
         self.linger = None
+        self.dead = False            # the kernel has torn the connection down (reset, pipe, timeout)
         self.tx = bytearray()
         self.rx = bytearray()
         ShimSocket._n += 1
@@ -228,6 +233,16 @@ class ShimSocket:
 
     def getsockname(self):
         return ("10.0.0.1", 40000 + self.sid % 20000)
+
+    def getpeername(self):
+        """Like the kernel: works on an established connection (also after the peer's orderly close), fails with
+        ENOTCONN on a socket that never connected or whose connection was reset, EBADF once closed."""
+        if self.closed:
+            raise _oserr(errno.EBADF)
+        established = (self.role == "accepted") or (self.role == "outbound" and self.peer is not None)
+        if not established or self.dead:
+            raise _oserr(errno.ENOTCONN)
+        return tuple(self.peer_addr) if self.peer_addr else ("10.1.0.1", 3868)
 
     def bind(self, addr):
         self.role = "listener"
@@ -309,6 +324,8 @@ class ShimSocket:
             h.counters["fault.recv." + kind] += 1
             if kind == "err":
                 h.log("node_rx_err", sock=self.sid, errno=plan[1])
+                if plan[1] in _FATAL_ERRNOS:
+                    self.dead = True
                 raise _oserr(plan[1])
             if kind == "eof":
                 h.log("node_rx", sock=self.sid, n=0)
@@ -332,6 +349,8 @@ class ShimSocket:
             h.counters["fault.send." + kind] += 1
             if kind == "err":
                 h.log("node_tx_err", sock=self.sid, errno=plan[1])
+                if plan[1] in _FATAL_ERRNOS:
+                    self.dead = True
                 raise _oserr(plan[1])
             if kind == "cap":
                 data = bytes(data)[:max(1, plan[1])]
@@ -386,6 +405,38 @@ class SocketShim:
 
     def __getattr__(self, name):
         return getattr(real_socket, name)
+
+
+class SctpSocket(ShimSocket):
+    """What pysctp's sctpsocket_tcp offers beyond a plain socket, as far as the node uses it."""
+    is_sctp = True
+
+    def sctp_send(self, msg, to=("", 0), ppid=0, flags=0, stream=0, timetolive=0, context=0, record_file_prefix=""):
+        self.h.counters["sctp.sctp_send"] += 1
+        TOTALS["sctp.sctp_send"] += 1
+        return self.send(msg)
+
+    def bindx(self, sockaddrs, action=None):
+        self.h.counters["sctp.bindx"] += 1
+        TOTALS["sctp.bindx"] += 1
+        self.bind(tuple(sockaddrs[0]))
+
+    def connectx(self, sockaddrs, assoc_id=None):
+        self.h.counters["sctp.connectx"] += 1
+        TOTALS["sctp.connectx"] += 1
+        return self.connect(tuple(sockaddrs[0]))
+
+
+class SctpShim:
+    """Stands in for the optional `sctp` module (pysctp is not installed in this sandbox): one-to-one style
+    SCTP sockets behave like stream sockets towards the node, which is all the node relies on."""
+    MSG_UNORDERED = 1
+
+    def sctpsocket_tcp(self, family, sk=None):
+        h = H()
+        h.counters["sctp.sctpsocket_tcp"] += 1
+        TOTALS["sctp.sctpsocket_tcp"] += 1
+        return SctpSocket(h)
 
 
 class SelectShim:
@@ -489,6 +540,9 @@ class _Counter(dict):
         return 0
 
 
+TOTALS = _Counter()      # per process: calls into the SCTP stand-in
+
+
 def install_shims():
     global _installed
     if _installed:
@@ -496,6 +550,7 @@ def install_shims():
     ts, qs, ths = TimeShim(), QueueShim(), ThreadingShim()
     node_mod.socket = SocketShim()
     node_mod.select = SelectShim()
+    node_mod.sctp = SctpShim()
     node_mod.time = ts
     peer_mod.time = ts
     peer_mod.queue = qs
@@ -612,9 +667,9 @@ class Harness:
 
     # ----- node construction
     def make_node(self, origin_host="node.verif.example", realm="verif.example", ip_addresses=("10.0.0.1",),
-                  tcp_port=3868, vendor_ids=None, **attrs):
+                  tcp_port=3868, vendor_ids=None, sctp_port=None, **attrs):
         n = node_mod.Node(origin_host, realm, ip_addresses=list(ip_addresses) if ip_addresses else None,
-                          tcp_port=tcp_port, vendor_ids=vendor_ids)
+                          tcp_port=tcp_port, sctp_port=sctp_port, vendor_ids=vendor_ids)
         for k, v in attrs.items():
             setattr(n, k, v)
         self.node = n
@@ -793,7 +848,8 @@ class Harness:
             raise RuntimeError("node has no listener")
         lst = self.listeners[0]
         a, b = real_socket.socketpair()
-        ns = ShimSocket(self, a, None, role="accepted", peer_addr=(ip, port))
+        ns = (SctpSocket if getattr(lst, "is_sctp", False) else ShimSocket)(self, a, None, role="accepted",
+                                                                          peer_addr=(ip, port))
         p = ScriptedPeer(self, b, ns, (ip, port), "inbound")
         ns.peer = p
         lst.accept_q.append((ns, (ip, port)))
